@@ -574,6 +574,27 @@ def pose_hist(rng, pose, N, lead=0, integer=False):
     return gyr, acc, mag
 
 
+def tilt_hist(rng, kind, N):
+    """thin region: the device is only pitched (a_y == 0 exactly) or only rolled (a_x == 0 exactly) by an integer number of
+    degrees, upright or upside-down, any heading: quotients such as a_z / sqrt(1 - a_x^2) are +-1 up to rounding"""
+    mref = np.array([math.cos(DIP), 0.0, math.sin(DIP)])
+    acc = np.zeros((N, 3)); mag = np.zeros((N, 3))
+    sa, sm = 10.0 ** rng.uniform(-3, 3), 10.0 ** rng.uniform(-3, 3)
+    for i in range(N):
+        ang = math.radians(int(rng.integers(1, 90)))
+        flip = float(rng.choice([-1.0, 1.0]))
+        head = math.radians(float(rng.choice([40.0, 200.0, 305.0])))
+        if kind == 'pitch-only':
+            acc[i] = [math.sin(ang), 0.0, flip * math.cos(ang)]
+            R = _Rz(head) @ _Ry(-ang if flip > 0 else math.pi + ang)
+        else:
+            acc[i] = [0.0, math.sin(ang), flip * math.cos(ang)]
+            R = _Rz(head) @ _Rx(ang if flip > 0 else math.pi - ang)
+        mag[i] = R.T @ mref
+    gyr = rng.standard_normal((N, 3)) * 10.0 ** rng.uniform(-3, 1)
+    return gyr, acc * sa, mag * sm
+
+
 def _inp(cfg, region, H):
     cls, arch, fr, ps = cfg
     g, a, m = H
@@ -602,6 +623,10 @@ def search(ctx, scale):
                 inp['form'] = 'list'
             inp['pose'] = pose[1]
             ctx.check('attitudes', inp, _call(inp), nontrivial_key=(cfg, pose[1], lead))
+        for j in range(2 * scale):
+            kind = ('pitch-only', 'roll-only')[(ci + j) % 2]
+            inp = _inp(cfg, kind, tilt_hist(ctx.rng, kind, 7))
+            ctx.check('attitudes', inp, _call(inp), nontrivial_key=(cfg, kind, j))
     for inp in stream_cases(ctx.rng, 3 * scale):
         ctx.check('stream', inp, _call_stream(inp), nontrivial_key=(inp['key'], inp['frame'], inp['ctor'], tuple(np.round(inp['q'], 6))))
     for inp in step_cases(ctx.rng, 6 * scale):
